@@ -231,7 +231,12 @@ Definition is_res (P : N) (x : ffe) : Prop := exists r, x = Some r /\ r < P.
 Lemma is_res_some P r : r < P -> is_res P (Some r).
 Proof. intros H. exists r. auto. Qed.
 
-Ltac ff_sc := first [assumption | apply N.mod_lt; lia | apply zp_sub_lt; lia | lia].
+Ltac ff_sc :=
+  match goal with
+  | |- _ mod _ < _ => apply N.mod_lt; lia
+  | |- zp_sub _ _ _ < _ => apply zp_sub_lt; lia
+  | _ => first [assumption | lia]
+  end.
 Ltac ff_step :=
   first [ rewrite ff_add_exact_gen by ff_sc | rewrite ff_mul_exact_gen by ff_sc
         | rewrite ff_sub_exact_gen by ff_sc | rewrite ff_negate_exact_gen by ff_sc
